@@ -249,7 +249,9 @@ End == /\ Is("end")
        /\ UNCHANGED <<q, pend, led>>
        /\ l' = l + 1
 
-MemEv == /\ (Is("uaf") \/ Is("badfree") \/ Is("doublefree"))
+\* earlyfree: a block handed to the memory manager was released without an epoch change in between
+\* (conformance with MQMem: release only from the batch handed over at an epoch change)
+MemEv == /\ (Is("uaf") \/ Is("badfree") \/ Is("doublefree") \/ Is("earlyfree"))
          /\ Flag({"C16"})
          /\ UNCHANGED <<q, pend, led>>
          /\ l' = l + 1
